@@ -996,6 +996,55 @@ class SymMem(object):
     __copy__ = copy
 
 
+class TrackMem(SymMem):
+    """a SymMem handed to a simulator AS the user's memory_value_map entry (so that the object identity relations the code
+    creates - aliasing vs. copying - are the real ones): remembers the concrete initial words and every write made through it;
+    a copy/deepcopy is an independent snapshot"""
+
+    def __init__(self, arr, addrwidth, bitwidth, init=None, default=0, writes=None):
+        SymMem.__init__(self, arr, addrwidth, bitwidth)
+        self.init = dict(init or {})
+        self.default = default
+        self.writes = list(writes or [])
+
+    @staticmethod
+    def from_words(d, default, addrwidth, bitwidth):
+        m = SymMem.from_dict(d, default, addrwidth, bitwidth)
+        return TrackMem(m.arr, addrwidth, bitwidth, init=d, default=default)
+
+    def items(self):
+        return iter(list(self.init.items()) + list(self.writes))
+
+    def keys(self):
+        return iter([k for k, _ in self.items()])
+
+    def __iter__(self):
+        return self.keys()
+
+    def __len__(self):
+        return len(self.init) + len(self.writes)
+
+    def get(self, addr, default=None):
+        if not self.writes and not is_sym(addr):
+            return self.init.get(addr, self.default if default is None else default)
+        return SymMem.get(self, addr, default)
+
+    def __getitem__(self, addr):
+        return self.get(addr)
+
+    def __setitem__(self, addr, val):
+        SymMem.__setitem__(self, addr, val)
+        self.writes.append((addr, val))
+
+    def copy(self):
+        return TrackMem(self.arr, self.aw, self.bw, init=self.init, default=self.default, writes=self.writes)
+
+    def __deepcopy__(self, memo):
+        return self.copy()
+
+    __copy__ = copy
+
+
 class SymTable(object):
     """wraps a concrete list/dict/function ROM table so that a symbolic index yields an ite tree
     (or a shared uninterpreted function + table lemma when uf=True)."""
